@@ -10,9 +10,10 @@
 #define NMAXR 50
 #define NYMAX 4
 #define NZ 8
-static const int SHAPES[23][2] = {{4, 1}, {4, 2}, {5, 1}, {5, 2}, {5, 3}, {8, 1}, {8, 2}, {8, 3}, {8, 6}, {20, 1}, {20, 2}, {20, 3}, {20, 6}, {20, 10},
+static const int SHAPES[26][2] = {{4, 1}, {4, 2}, {5, 1}, {5, 2}, {5, 3}, {8, 1}, {8, 2}, {8, 3}, {8, 6}, {20, 1}, {20, 2}, {20, 3}, {20, 6}, {20, 10},
                                   {50, 1}, {50, 2}, {50, 3}, {50, 6}, {50, 10},
-                                  {7, 1}, {7, 3}, {11, 2}, {23, 6}};   /* object counts of every residue mod 4 (unrolled kernels) */
+                                  {7, 1}, {7, 3}, {11, 2}, {23, 6},   /* object counts of every residue mod 4 (unrolled kernels) */
+                                  {4, 3}, {6, 5}, {11, 10}};           /* saturated: objects = predictors + 1 (square design, exact interpolation) */
 static const double KAPPA[3] = {1, 1e2, 1e4};
 static const double NOISE[3] = {0, 0.1, 10};
 static const double AFF[6][2] = {{-2, 0}, {1, 5}, {0.01, -3}, {1e3, 7}, {1e6, 0}, {1, 1e7}};   /* the last two: large response units / large offset against the spread */
@@ -86,7 +87,7 @@ static void reuse_call(const char *cls, const char *how, const char *ctx, struct
 }
 
 static void body(void) {
-  int si = vx_choose("shape", 23);
+  int si = vx_choose("shape", 26);
   int kap = vx_choose("kappa", 3);
   int ny = 1 + vx_choose("ny-1", 4);
   int noise = vx_choose("noise", 3);
@@ -326,7 +327,7 @@ static void body(void) {
 
 int main(int argc, char **argv) {
   vg_seed(getenv("VERIF_SEED") ? atol(getenv("VERIF_SEED")) : 0);
-  vx_describe("alphabet", "n in {4,5,7,8,11,20,23,50} (every residue mod 4) x p in {1,2,3,6,10} with n >= p+2 (23 shapes) x spectral kappa {1,1e2,1e4} x ny 1..4 x noise {0,0.1,10}*sd(signal) x 2 [thorough 24] families x "
+  vx_describe("alphabet", "n in {4,5,7,8,11,20,23,50} (every residue mod 4) x p in {1,2,3,6,10} with n >= p+2 (23 shapes) + saturated 4x3, 6x5, 11x10 (n = p+1) x spectral kappa {1,1e2,1e4} x ny 1..4 x noise {0,0.1,10}*sd(signal) x 2 [thorough 24] families x "
               "column modifiers {offsets +-(1+0.5j), none, 1e3 offset + x50 column, x1e-3}; per execution: 8 unseen objects, response maps (-2,0),(1,5),(0.01,-3),(1e3,7), predictor re-mixings X->XA with kappa(A) in {1,3,10,10}");
   vx_describe("oracle", "allowance tol_rel = 1e3*eps*(n+p+1)*kappa_d^2 (kappa_d = 2-norm condition number of [1 X] by long-double Jacobi SVD; normal equations + explicit inverse), judged while tol_rel <= 2e-3: "
               "|D_j' residuals| <= tol_rel |D_j| (|y| + |D||b|); |b - b_QR| and (noise 0) |b - b_generating| <= tol_rel (|b| + |y|/|D|); recalculated_y, residuals, MLRPredictY vs b0 + x b at rounding level; "
